@@ -30,3 +30,4 @@ pub mod c23;
 pub mod c27;
 pub mod c14;
 pub mod c01;
+pub mod c29;
